@@ -301,3 +301,8 @@ UNITS += [add_class_arguments_unit("C07"), add_subclass_arguments_unit("C07")]
 
 from contracts.share import carried as _carried  # noqa: E402
 UNITS += _carried("C07")
+
+# an option declared in an inner parser is re-keyed when that parser is attached under a key (dest and option strings are prefixed): the action must not have
+# remembered anything computed from them at construction time, or the inner-parser style parses `--g.opts.k=1` differently from the other three styles
+from contracts.any_units import typehint_init_unit as _typehint_init_unit  # noqa: E402
+UNITS.append(_typehint_init_unit("C07"))
